@@ -1034,12 +1034,22 @@ Section InstHash.
   Qed.
 
   Lemma pickle_rt_safe x :
-    pickle_safe c x = true -> i_attrs (pickle_rt c x) = i_attrs x /\ nones_list x = [].
+    pickle_safe c x = true -> i_attrs (pickle_rt c x) = i_attrs x /\ nones_list (pickle_rt c x) = nones_list x.
   Proof.
-    unfold pickle_safe. intro H. apply andb_true_iff in H. destruct H as [H1 H2]. split.
-    - simpl. apply filter_all. exact H1.
-    - unfold nones_list. destruct (i_nones x) as [[|k l]|]; [reflexivity | discriminate | reflexivity].
+    unfold pickle_safe. intro H. split.
+    - simpl. apply filter_all. exact H.
+    - reflexivity.
   Qed.
+
+  Lemma subset_refl_l (l : list pystr) : subset l l = true.
+  Proof.
+    unfold subset. apply forallb_forall. intros k Hk. unfold str_in. apply existsb_exists.
+    exists k. split; [exact Hk | apply pystr_eqb_refl].
+  Qed.
+
+  (* the unpickled copy is live again: `_instantiated` is set, whatever the original had *)
+  Lemma pickle_rt_live x : i_live (pickle_rt c x) = true.
+  Proof. reflexivity. Qed.
 
   Lemma copy_eq x : inst_eq c undef (copy_inst x) x = true /\ inst_str' (copy_inst x) = inst_str' x.
   Proof. rewrite copy_inst_id. split; [apply inst_eq_refl | reflexivity]. Qed.
@@ -1057,8 +1067,9 @@ Section InstHash.
     { intro k. unfold getf. rewrite Ha. destruct (alist_get (i_attrs x) k); [reflexivity|].
       apply missing_ext. intro k'. rewrite Hn. reflexivity. }
     assert (N : nones_ok (pickle_rt c x) x = true).
-    { apply nones_ok_spec. left. split; [reflexivity|].
-      unfold nones_list in Hn. destruct (i_nones x) as [[|k l]|]; [reflexivity | discriminate | reflexivity]. }
+    { apply nones_ok_spec. unfold pickle_rt, nones_list. cbn [i_nones]. destruct (i_nones x) as [l|].
+      - right. exists l, l. repeat split; apply subset_refl_l.
+      - left. split; reflexivity. }
     split; [|split].
     - apply inst_eq_fieldwise. split; [reflexivity|]. split; [|exact N].
       intro k. rewrite G. apply py_eq_refl.
